@@ -409,3 +409,156 @@ Proof.
   unfold parse_float, go_parse_float. rewrite Ht, Hd, H95.
   destruct (desc_value d) as [v [|]]; [right|left]; eexists; reflexivity.
 Qed.
+
+(* ------------------------------------------------------------------ *)
+(* converse: what parseFloat accepts is in the grammar                 *)
+(* ------------------------------------------------------------------ *)
+
+(* [sign] inf | infinity | nan, any case (the sign before nan is goawk's own extension) *)
+Definition special_word (w : bytes) : Prop :=
+  (zlen w = 3 /\ has_inf_prefix w = true) \/ (zlen w = 3 /\ has_nan_prefix w = true) \/
+  (zlen w = 8 /\ common_prefix_len_ic w str_infinity = 8).
+Definition awk_special (t : bytes) : Prop :=
+  exists sg w, sign_str sg /\ t = sg ++ w /\ special_word w.
+
+Lemma special_inf_word neg nsign w d n :
+  special_inf neg nsign w = Some (d, n) -> n = nsign + zlen w -> special_word w.
+Proof.
+  unfold special_inf. set (k := common_prefix_len_ic w str_infinity).
+  destruct ((3 <? k) && (k <? 8)) eqn:E.
+  - cbn [Z.eqb Pos.eqb orb]. intros H Hn. injection H as _ <-.
+    left. split; [lia|]. assert (H3 : 3 <= k) by lia. destruct (cpl_inf3 w H3) as [a [b [c [r [-> Hi]]]]]. exact Hi.
+  - destruct ((k =? 3) || (k =? 8)) eqn:E2; [|discriminate]. intros H Hn. injection H as _ <-.
+    apply orb_true_iff in E2 as [E2|E2]; apply Z.eqb_eq in E2.
+    + left. split; [lia|]. assert (H3 : 3 <= k) by lia. destruct (cpl_inf3 w H3) as [a [b [c [r [-> Hi]]]]]. exact Hi.
+    + right; right. split; [lia|exact E2].
+Qed.
+
+Lemma special_whole_word t d : special t = Some (d, zlen t) -> awk_special t.
+Proof.
+  destruct t as [|c t']; [discriminate|]. cbn [special].
+  destruct (is_sign c) eqn:Es.
+  - intro H. exists [c], t'. split.
+    + unfold is_sign in Es. apply orb_true_iff in Es as [E|E]; apply Z.eqb_eq in E; subst; [right; left|right; right]; reflexivity.
+    + split; [reflexivity|]. apply (special_inf_word _ _ _ _ _ H). rewrite zlen_cons. reflexivity.
+  - destruct ((c =? 105) || (c =? 73)).
+    + intro H. exists [], (c :: t'). split; [left; reflexivity|]. split; [reflexivity|].
+      apply (special_inf_word _ _ _ _ _ H). lia.
+    + destruct ((c =? 110) || (c =? 78)); [|discriminate].
+      destruct (common_prefix_len_ic (c :: t') str_nan =? 3) eqn:E3; [|discriminate].
+      intro H. apply Z.eqb_eq in E3.
+      assert (Hn := f_equal (fun o : option (desc * Z) => match o with Some (_, n) => n | None => 0 end) H).
+      cbv beta iota in Hn.
+      exists [], (c :: t'). split; [left; reflexivity|]. split; [reflexivity|].
+      right; left. split; [lia|]. destruct (cpl_nan3 _ E3) as [a [b [e [r [-> Hnan]]]]]. exact Hnan.
+Qed.
+
+(* from the lexer-level shape of an accepted text to the grammar *)
+Lemma accepted_shape_numeral t sg u d1 dot d2 r3 :
+  opt_sign t = (sg, u) ->
+  lex_mant (mant_digit (hex_of u)) (body_of u) = (d1, dot, d2, r3) ->
+  is_nil d1 && is_nil d2 = false ->
+  (r3 = [] \/
+   (exists c es ed, r3 = c :: es ++ ed /\ (lower c =? (if hex_of u then 112 else 101)) = true /\
+      opt_sign (es ++ ed) = (es, ed) /\ ed <> [] /\ forallb is_digit ed = true)) ->
+  awk_numeral t.
+Proof.
+  intros Hos Hl Hn Hr3. destruct (opt_sign_inv _ _ _ Hos) as [Et Hsg].
+  pose proof (lex_mant_decomp _ _ _ _ _ _ Hl) as Eb.
+  destruct (hex_of u) eqn:Hh.
+  - destruct (hex_of_true_inv u Hh) as [b [c0 [r [Eu Hb]]]].
+    unfold body_of in Hl, Eb. rewrite Hh, Eu in Hl, Eb. change (zdrop 2 (48 :: b :: c0 :: r)) with (c0 :: r) in Hl, Eb.
+    rewrite (lex_mant_ext _ _ _ mant_digit_hex) in Hl.
+    right. exists sg, b, (d1 ++ dot ++ d2), r3.
+    split; [rewrite Et, Eu; change (48 :: b :: c0 :: r) with ([48; b] ++ (c0 :: r)); rewrite Eb; norm_app; reflexivity|].
+    split; [exact Hsg|]. split; [exact Hb|]. split; [exact (lex_mant_mantissa _ _ _ _ _ _ Hl Hn)|].
+    destruct Hr3 as [-> | [c [es [ed [-> [Hc [Hose [Hne Hd]]]]]]]]; [left; reflexivity|right].
+    exists c, es, ed. split; [reflexivity|]. rewrite lower_p in Hc. split; [lia|].
+    split; [exact (proj2 (opt_sign_inv _ _ _ Hose))|]. split; assumption.
+  - unfold body_of in Hl, Eb. rewrite Hh in Hl, Eb. rewrite (lex_mant_ext _ _ _ mant_digit_dec) in Hl.
+    left. exists sg, (d1 ++ dot ++ d2), r3.
+    split; [rewrite Et, Eb; norm_app; reflexivity|]. split; [exact Hsg|].
+    split; [exact (lex_mant_mantissa _ _ _ _ _ _ Hl Hn)|].
+    destruct Hr3 as [-> | [c [es [ed [-> [Hc [Hose [Hne Hd]]]]]]]]; [left; reflexivity|right].
+    exists c, es, ed. split; [reflexivity|]. rewrite lower_e in Hc. split; [lia|].
+    split; [exact (proj2 (opt_sign_inv _ _ _ Hose))|]. split; assumption.
+Qed.
+
+(* PARTIAL: with ASCII blanks only, what parseFloat accepts is in the grammar *)
+Theorem accepted_is_numeric s x :
+  trim_space s = ascii_trim s -> parse_float s = PFOk x ->
+  awk_numeral (ascii_trim s) \/ awk_special (ascii_trim s).
+Proof.
+  intros Htrim Hpf.
+  pose proof (parse_float_text_cases s) as Hc. cbv zeta in Hc. rewrite Htrim in Hc.
+  unfold parse_float in Hpf.
+  destruct (parse_float_text s) as [text|].
+  - destruct (go_parse_float text) as [|v r] eqn:Hgo; [discriminate|]. destruct r; [discriminate|].
+    destruct (contains 95 text) eqn:H95; [discriminate|].
+    destruct Hc as [[_ ->] | [Htne Hc]]; [discriminate|].
+    destruct (opt_sign (ascii_trim s)) as [sg u] eqn:Hos.
+    specialize (Hc sg u eq_refl).
+    destruct (opt_sign_inv _ _ _ Hos) as [Etsu Hsg].
+    unfold go_parse_float in Hgo. destruct (go_parse_desc text) as [d|] eqn:Hd; [|discriminate].
+    unfold go_parse_desc in Hd.
+    destruct (special text) as [[d' n]|] eqn:Hsp.
+    + destruct (n =? zlen text) eqn:En; [|discriminate]. apply Z.eqb_eq in En. subst n.
+      assert (text = ascii_trim s) as ->.
+      { destruct Hc as [H | [-> [Hh _]]]; [exact H|exfalso].
+        destruct (hex_of_true_inv u Hh) as [b [c [r [Eu _]]]].
+        rewrite Etsu, Eu, <- app_assoc in Hsp. cbn [app] in Hsp. rewrite (special_hex_none sg b _ Hsg) in Hsp. discriminate. }
+      right. exact (special_whole_word _ _ Hsp).
+    + destruct (read_float text) as [[d' rest]|] eqn:Hrf; [|discriminate].
+      destruct rest; [|discriminate].
+      destruct (read_float_accept text d' H95 Hrf) as [sg' [u' [d1 [dot [d2 [r3 [_ [Hos' [Hl [Hnil Hr3]]]]]]]]]].
+      left. destruct Hc as [-> | [-> [Hh [N112 N80]]]].
+      * rewrite Hos in Hos'. injection Hos' as <- <-.
+        apply (accepted_shape_numeral _ sg u d1 dot d2 r3 Hos Hl Hnil).
+        destruct Hr3 as [[H _]|H]; [left; exact H|right; exact H].
+      * rewrite (opt_sign_app _ str_p0 sg u Htne Hos) in Hos'. injection Hos' as <- <-.
+        destruct (hex_of_true_inv u Hh) as [b [c [r [Eu Hb]]]].
+        assert (Hh' : hex_of (u ++ str_p0) = true).
+        { rewrite Eu. unfold hex_of. cbn [app]. rewrite zlen_ge3. cbn [andb has_hex_prefix].
+          destruct Hb as [-> | ->]; reflexivity. }
+        rewrite Hh' in Hl, Hr3.
+        assert (Hbody : body_of (u ++ str_p0) = body_of u ++ str_p0).
+        { unfold body_of. rewrite Hh', Hh, Eu. reflexivity. }
+        rewrite Hbody in Hl. rewrite (lex_mant_ext _ _ _ mant_digit_hex) in Hl.
+        destruct (lex_mant is_hex_digit (body_of u)) as [[[a1 adot] a2] r3t] eqn:Hlt.
+        rewrite (lex_mant_app is_hex_digit (body_of u) str_p0 a1 adot a2 r3t eq_refl Hlt (fun _ => stops_p0)) in Hl.
+        injection Hl as <- <- <- <-.
+        assert (r3t = []) as ->.
+        { destruct r3t as [|c0 r3t']; [reflexivity|exfalso].
+          destruct Hr3 as [[H _]|[c1 [es [ed [H [Hc1 _]]]]]]; [discriminate|].
+          cbn [app] in H. injection H as <- _. rewrite lower_p in Hc1.
+          pose proof (lex_mant_decomp _ _ _ _ _ _ Hlt) as Eb.
+          assert (Hin : contains 112 (body_of u) = false /\ contains 80 (body_of u) = false).
+          { unfold body_of. rewrite Hh. split; apply contains_zdrop.
+            - rewrite Etsu, contains_app in N112. apply orb_false_iff in N112 as [_ H]. exact H.
+            - rewrite Etsu, contains_app in N80. apply orb_false_iff in N80 as [_ H]. exact H. }
+          destruct Hin as [I1 I2]. rewrite Eb, !contains_app in I1, I2. cbn [contains] in I1, I2.
+          repeat (apply orb_false_iff in I1 as [? I1]). repeat (apply orb_false_iff in I2 as [? I2]).
+          lia. }
+        apply (accepted_shape_numeral _ sg u a1 adot a2 [] Hos).
+        -- rewrite Hh, (lex_mant_ext _ _ _ mant_digit_hex). exact Hlt.
+        -- exact Hnil.
+        -- left; reflexivity.
+  - destruct Hc as [c [a [b [e [Et [Hsc Hn]]]]]]. right.
+    exists [c], [a; b; e]. split.
+    + unfold is_sign in Hsc. apply orb_true_iff in Hsc as [E|E]; apply Z.eqb_eq in E; subst; [right; left|right; right]; reflexivity.
+    + split; [exact Et|]. right; left. split; [reflexivity|exact Hn].
+Qed.
+
+(* the NBSP witness: accepted by parseFloat, not in the grammar (ASCII trimming leaves it whole) *)
+Lemma nbsp12_accepted_not_numeric :
+  exists s x, parse_float s = PFOk x /\ ~ (awk_numeral (ascii_trim s) \/ awk_special (ascii_trim s)).
+Proof.
+  exists [194; 160; 49; 50], (FFin 6755399441055744 (-49)). split; [vm_compute; reflexivity|].
+  change (ascii_trim [194; 160; 49; 50]) with [194; 160; 49; 50].
+  intros [H | [sg [w [Hsg [Et Hw]]]]].
+  - destruct (awk_numeral_head _ H) as [sg [h [r [Hsg [Et Hh]]]]].
+    destruct Hsg as [-> | [-> | ->]]; cbn [app] in Et; try discriminate.
+    injection Et as <- _. destruct Hh as [Hh|Hh]; [vm_compute in Hh|]; discriminate.
+  - destruct Hsg as [-> | [-> | ->]]; cbn [app] in Et; try discriminate. subst w.
+    destruct Hw as [[H _] | [[H _] | [H _]]]; vm_compute in H; discriminate.
+Qed.
